@@ -267,6 +267,9 @@ def pong(R):
         ok = all(("%s.name == 'pong'" % ev, True) in l and not any(t == 'auto_pong' for (t, p) in l) for l in ls)
     R.ob('C15.pong', 'pong events recorded irrespective of auto_pong', ok,
          '_on_pong is not reached for every pong event', func=q2, node=(oc[0][1] if oc else None), construct='_on_pong dispatch')
+    from . import C01 as _C01
+    with R.as_rule('C15.pong'):
+        _C01.conserve(R)         # a Pong is handed on when it arrives - not held back behind a data message still being assembled
     from .common import event_names
     event_names(R, 'C15.pong')        # only Pongs are named 'pong'
     q, g, rd, f = _check_fn(R, '_check_ping_timeout')
